@@ -388,6 +388,12 @@ pub fn mutate_doc(p: &mut Prng, cfg: GenCfg, doc: &Map<String, Value>, universe:
 /// Array-focused edit of a small document: {"title": n, "items♭": [...], "more♭": [...]} over a tiny
 /// identifier universe, so that concurrent replicas often apply the same kind of edit.
 pub fn mutate_arrays(p: &mut Prng, doc: &Map<String, Value>, universe: usize) -> Map<String, Value> {
+    mutate_arrays_kind(p, doc, universe, None)
+}
+
+/// `forced`: the kind of array edit (0 drop head, 1 drop tail, 2 append fresh, 3 prepend fresh, 4 rotate,
+/// 5 change a member, 6 move to the other array) applied to the first array; None = seeded choice.
+pub fn mutate_arrays_kind(p: &mut Prng, doc: &Map<String, Value>, universe: usize, forced: Option<usize>) -> Map<String, Value> {
     let mut d = doc.clone();
     d.remove("_id");
     let keys = ["items\u{266D}", "more\u{266D}"];
@@ -397,7 +403,7 @@ pub fn mutate_arrays(p: &mut Prng, doc: &Map<String, Value>, universe: usize) ->
             d.insert(k.to_string(), Value::from(Vec::<Value>::new()));
         }
     }
-    if p.chance(1, 10) {
+    if forced.is_none() && p.chance(1, 10) {
         // the key disappears: its members may stay alive elsewhere
         let k = keys[p.below(2)];
         if p.chance(1, 2) {
@@ -418,9 +424,9 @@ pub fn mutate_arrays(p: &mut Prng, doc: &Map<String, Value>, universe: usize) ->
     }
     let mut used = BTreeSet::new();
     used_ids(&Value::from(d.clone()), &mut used);
-    let k = keys[if p.chance(3, 4) { 0 } else { 1 }];
+    let k = keys[if forced.is_some() || p.chance(3, 4) { 0 } else { 1 }];
     let other = if k == keys[0] { keys[1] } else { keys[0] };
-    let kind = p.below(8);
+    let kind = match forced { Some(f) => f, None => p.below(8) };
     let mut moved: Option<Value> = None;
     {
         let a = d.get_mut(k).unwrap().as_array_mut().unwrap();
